@@ -218,3 +218,5 @@ harness_p!(k_string_pack, misc::STR_RAW, 30, misc::string_pack);
 harness_p!(k_words_view, misc::WORDS_RAW, 8, misc::words_view);
 harness_p!(k_parse_literal, misc::LIT_RAW, 10, misc::parse_literal);
 harness_p!(k_string_pack_small, misc::STR_RAW, 30, misc::string_pack_upto::<4>);
+// string_pack_utf8 (multi-byte characters) runs out of memory in CBMC's propositional conversion even for two characters
+// (String::push + Vec growth): it is run natively over every combination of its alphabet instead (checks/c02.py).
